@@ -103,3 +103,4 @@ Definition check_visit_panic (items : list item) (obs_panic : bool) : bool :=
 Definition check_cross_panic (dbg : bool) (root : ainv) (dirs : list (N * ainv)) (obs : N) : bool :=
   let s := cross_sites dbg root dirs [] in
   if obs =? 0 then is_nil s else existsb (N.eqb obs) s.
+Definition known_colon_uri (s : bytes) : bool := c17_colon_uri s.
